@@ -1,3 +1,5 @@
+import J5V.Codec.EncTotal
+import J5V.Codec.EncStable
 import J5V.Json.EscapeProofs
 import J5V.Codec.ScalarProofs
 import J5V.Codec.Encode
@@ -106,6 +108,51 @@ theorem C08_wellformed_partial (env : Env) (O : Oracle)
     (h : encodeBytes env O root v = .ok bs) : ∃ t, parse bs = some t ∧ t.render = bs := by
   obtain ⟨t, _, hb, hp⟩ := encodeBytes_parses' env O hO root v bs hg h
   exact ⟨t, hp, hb.symm⟩
+
+/-- **the encoder model never panics** (round 4): for EVERY message — representable or not: wrong
+shapes, non-finite floats, out-of-range dates, invalid UTF-8, undefined enum numbers, `Any` values of
+every kind — and every root, `Codec.ProtoToJSON` returns bytes or an error. The only panic the encoder
+model can originate is the exhaustion of its recursion fuel (Go has no such notion: it would be a
+model artefact); the theorem shows `encFuel = 6·depth + 10` always suffices — five levels of the mutual
+recursion `encodeObjectBody → GetValue → encodeOneofBody → GetValue → encodeValue` per nesting level of
+the message (`ENP`, `Codec/EncTotal.lean`). Hypothesis `Env.oneofsPlain` (decidable): the members of a
+oneof wrapper have proto paths (no exposed oneof directly inside a oneof — always so for reflected
+schemas, where a oneof's members are the fields of the wrapper message; every `Env.flat` environment:
+`C08_flat_oneofsPlain`); without it a chain of exposed oneofs nested in one another could be longer
+than any fuel derived from the message alone. -/
+theorem C08_encode_no_panic (env : Env) (O : Oracle) (hE : env.oneofsPlain = true) (root : String)
+    (v : PVal) : ∀ w, encodeBytes env O root v ≠ .panic w :=
+  encodeBytes_np env O hE root v
+
+/-- **the encoder model does not depend on its recursion fuel** (round 4): at every fuel from
+`encFuel v = 6·depth + 10` on, `encRoot` returns exactly what `encodeTree` returns — for every message
+and root. So the model's fuel is not an approximation of the Go encoder (which has none):
+`encodeTree` is the fuel-free semantics, and the silent `false` of `hasProp` at fuel 0 (which would
+omit an exposed oneof) is never reached (`ESt`, `Codec/EncStable.lean`). -/
+theorem C08_encode_fuel_independent (env : Env) (O : Oracle) (hE : env.oneofsPlain = true)
+    (root : String) (v : PVal) (F : Nat) (hF : encFuel v ≤ F) :
+    encRoot env O F root v = encodeTree env O root v :=
+  encRoot_fuel_stable env O hE root v F hF
+
+theorem C08_flat_oneofsPlain (env : Env) (h : env.flat = true) : env.oneofsPlain = true :=
+  oneofsPlain_of_flat env h
+
+/-- **"the encoder must either fail or still emit valid JSON"** (the property's clause for
+non-representable messages), packaged: for every message of an environment without `Any` (or with
+recognised `j5_json` chunks, `hg`), `Codec.ProtoToJSON` EITHER returns an error OR returns bytes that
+are one well-formed JSON document (strict parser) which re-renders to the same bytes. No third
+outcome. -/
+theorem C08_fails_or_wellformed (env : Env) (O : Oracle) (hO : FloatTextOk O)
+    (hE : env.oneofsPlain = true) (root : String) (v : PVal)
+    (hg : env.noAny = true ∨ (ChunkLaws O ∧ v.chunksOk O = true)) :
+    (∃ e, encodeBytes env O root v = .err e) ∨
+      (∃ bs t, encodeBytes env O root v = .ok bs ∧ parse bs = some t ∧ t.render = bs) := by
+  cases h : encodeBytes env O root v with
+  | ok bs =>
+    obtain ⟨t, hp, hr⟩ := C08_wellformed_partial env O hO root v bs hg h
+    exact Or.inr ⟨bs, t, rfl, hp, hr⟩
+  | err e => exact Or.inl ⟨e, rfl⟩
+  | panic w => exact absurd h (C08_encode_no_panic env O hE root v w)
 
 /-- the strict parser returns exactly the tree the encoder built (numbers stay numbers, strings
 stay strings, member order and names as written; a recognised `j5_json` chunk in parsed form) -/
@@ -276,6 +323,13 @@ example : Wire.Conforms C01.samplePbEnv wireOracle (.any true)
     (Wire.MembersConform.nil _)
   exact Wire.Conforms.scalar _ _ _ rfl
 
+/-- `Env.oneofsPlain` holds for the sample environments (also the non-flat one with the inlined
+oneof), and fails for a oneof whose member is itself an exposed oneof -/
+example : C01.sampleEnv.oneofsPlain = true ∧ C01.samplePbEnv.oneofsPlain = true ∧
+    C01.ioEnv.oneofsPlain = true := by decide
+def nestedExposedEnv : Env :=
+  { defs := [("t.W", .oneof [{ jsonName := ascii "x", path := [], pres := .none, field := .oneof "t.W" }])] }
+example : nestedExposedEnv.oneofsPlain = false := by decide
 example : scalarOk toyOracle .int64 (.int (-9223372036854775808)) = true := by decide
 example : scalarOk toyOracle .date (.date 33 1 2) = true := by decide
 example : scalarOk toyOracle .bytes (.bytes [0xfb, 0xff]) = true := by decide
@@ -345,6 +399,49 @@ theorem C08_src_container_shapes :
     encodeMapIfs = [("!first", "none"), ("err != nil", "err")] ∧
     encodeArrayIfs = [("!first", "none")] ∧
     encodeEnumIfs = [("err != nil", "err")] := by decide
+
+/-- **the scalar writers ↔ `encodeScalar`** (round 4): per Go type of `encodeScalarField` the calls it
+makes, and per primitive of `encoder.go` its calls and literals. Mirrored by the model: `string`,
+`Date`, `Decimal`, `time.Time` and `[]byte` go through `addString` (quoted + escaped; the model's
+`.quoted`), `[]byte` as ONE `base64.StdEncoding.EncodeToString` (padded standard alphabet, no
+chunking), the timestamp as `In(UTC).Format(RFC3339Nano)`; `int64` / `uint64` are `FormatInt/Uint`
+base 10 through `addQuoted` (quoted), `int32` / `uint32` the same through `add` (bare), bools the bare
+literals `true` / `false`, floats `FormatFloat(v, 'g', -1, bits)` bare except the three quoted
+non-finite literals `NaN`, `Infinity`, `-Infinity` (22e9ce8); a member label is `addString(name)`
+followed by `:` (so names and map keys get the JSON string escaper, not a Go-syntax quoter). -/
+theorem C08_src_scalar_writers :
+    encodeScalarCalls =
+      [
+       ("string", ["enc.addString"]),
+       ("bool", ["enc.addBool"]),
+       ("int32", ["enc.addInt32"]),
+       ("int64", ["enc.addInt64"]),
+       ("uint32", ["enc.addUint32"]),
+       ("uint64", ["enc.addUint64"]),
+       ("float32", ["enc.addFloat", "float64"]),
+       ("float64", ["enc.addFloat"]),
+       ("[]byte", ["base64.StdEncoding.EncodeToString", "enc.addString"]),
+       ("*date_j5t.Date", ["enc.addString", "vt.DateString"]),
+       ("*decimal_j5t.Decimal", ["enc.addString"]),
+       ("time.Time", ["enc.addString", "vt.In(…).Format", "vt.In"]),
+       ("default", ["fmt.Errorf"])] ∧
+    encoderPrimitives =
+      [
+       ("fieldLabel", ["enc.addString", "enc.add", "[]byte"], ["\":\""]),
+       ("addString", ["make", "len", "appendString", "enc.add"], ["0", "2"]),
+       ("addQuoted", ["enc.add", "[]byte", "enc.add", "enc.add", "[]byte"], ["`\"`", "`\"`"]),
+       ("addInt32", ["strconv.FormatInt", "int64", "enc.add", "[]byte"], ["10"]),
+       ("addUint32", ["strconv.FormatUint", "uint64", "enc.add", "[]byte"], ["10"]),
+       ("addInt64", ["strconv.FormatInt", "enc.addQuoted", "[]byte"], ["10"]),
+       ("addUint64", ["strconv.FormatUint", "enc.addQuoted", "[]byte"], ["10"]),
+       ("addBool", ["enc.add", "[]byte", "enc.add", "[]byte"], ["\"true\"", "\"false\""]),
+       ("addFloat", ["math.IsNaN", "enc.addQuoted", "[]byte", "math.IsInf", "enc.addQuoted", "[]byte", "math.IsInf", "enc.addQuoted", "[]byte", "strconv.FormatFloat", "enc.add", "[]byte"], ["\"NaN\"", "1", "\"Infinity\"", "1", "\"-Infinity\"", "'g'", "1"]),
+       ("fieldSep", ["enc.add", "[]byte"], ["\",\""]),
+       ("openObject", ["enc.add", "[]byte"], ["\"{\""]),
+       ("closeObject", ["enc.add", "[]byte"], ["\"}\""]),
+       ("openArray", ["enc.add", "[]byte"], ["\"[\""]),
+       ("closeArray", ["enc.add", "[]byte"], ["\"]\""])] := by
+  decide
 
 theorem C08_src_extractor_ok : codecExtractorOk = true := by decide
 
